@@ -1,6 +1,6 @@
 (** C17 - Cue sheets are read the same regardless of case, spacing and unknown lines.
     Property theorems only. *)
-From SE Require Import Base Codecs Cue FatProofs StreamProofs CueProofs.
+From SE Require Import Base Codecs Cue FatProofs StreamProofs CueProofs CueDecorProofs.
 
 (** Leading/trailing blanks on ANY lines of ANY text never change the result of parsing
     (the meaning, or the rejection): two line lists that agree after stripping each line parse
@@ -16,10 +16,84 @@ Theorem cue_no_file :
 Proof. exact cue_no_file_lemma. Qed.
 Print Assumptions cue_no_file.
 
-(** Keyword case, blank lines at every position and unrecognised lines before FILE / inside a
-    track: BOUNDED theorem (fixed three-track sheet; 4 casings x 3 paddings x every single
+(** The canonical sheet of a meaning is read back to exactly that meaning.
+    [print_cue c] is: FILE "<bin>" BINARY, then per track TRACK nn <mode>, an optional
+    TITLE "<title>", and one INDEX nn mm:ss:ff per index (numbers in decimal, at least two
+    digits).  [wf_cue c]: the bin name and the titles hold no double quote and no newline, every
+    number is non-negative, every mode is a non-empty word over [A-z0-9/] (the parser's own
+    class), no unparsed lines.  Any number of tracks (also none) and of indices (also none),
+    numbers of any size.  (The model's int() has no digit limit; CPython >= 3.11 refuses
+    digit strings longer than 4300 characters with ValueError.) *)
+Theorem cue_parse_canonical :
+  forall c, wf_cue c -> parse_cue_sheet (print_cue c) = Ok c.
+Proof. exact cue_parse_canonical_lemma. Qed.
+Print Assumptions cue_parse_canonical.
+
+(** The UNBOUNDED decoration theorem.  [decorated ls ls'] (CueDecorProofs.v): [ls'] is [ls] with
+    (a) each keyword TRACK / TITLE / INDEX / FILE / BINARY in any letter case and (b) any
+        blanks before and after each line ([line_variant]);
+    (c) blank lines inserted at any position;
+    (d) before the FILE line: any inserted lines that are not FILE lines
+        ([skipped_before_file]: the FILE pattern does not match the stripped line);
+        after the first TRACK line, at any position up to the end: any inserted lines on
+        which none of the TRACK / INDEX / TITLE patterns matches ([skipped_in_track]; this is
+        exactly the test each parse loop applies, so REM, PERFORMER, FLAGS, PREGAP, ISRC,
+        TITLE-without-quotes and even a second FILE line are allowed there: see
+        [unrecognised_by_first_char] and the example);
+        between the FILE line and the first TRACK line only blank lines (anything else is
+        rejected by the code: cue_unrecognised_between_file_and_track_rejected below).
+    Every decoration of the canonical sheet of a well-formed meaning parses to that meaning
+    ([cue_meaning] forgets the per-track list of unparsed lines, which is where the parser
+    keeps the inserted lines).  Any number of tracks, indices and inserted lines. *)
+Theorem cue_parse_decorated :
+  forall c ls', wf_cue c -> decorated (print_cue c) ls' ->
+    exists c', parse_cue_sheet ls' = Ok c' /\ cue_meaning c' = c.
+Proof. exact cue_parse_decorated_lemma. Qed.
+Print Assumptions cue_parse_decorated.
+
+(** ... "the image produced from it is therefore the same": same meaning tuple, same routing
+    (sampler image / CDDA) and the same CDDA track windows for every bin length. *)
+Theorem cue_decorated_same_image :
+  forall c ls', wf_cue c -> decorated (print_cue c) ls' ->
+    exists c', parse_cue_sheet ls' = Ok c' /\ meaning c' = meaning c
+               /\ cue_route c' = cue_route c /\ forall eof, cdda_windows c' eof = cdda_windows c eof.
+Proof. exact cue_decorated_same_image_lemma. Qed.
+Print Assumptions cue_decorated_same_image.
+
+(** The hypotheses are satisfiable on a non-trivial input: a three-track sheet (data track,
+    empty title, track without INDEX) decorated with REM / PERFORMER / FLAGS / PREGAP / ISRC
+    lines, a TRACK line before FILE, a FILE line inside a track, mixed-case keywords, tabs,
+    blanks and blank lines. *)
+Example cue_decoration_example :
+  wf_cue ex_cue /\ decorated (print_cue ex_cue) ex_decorated
+  /\ length ex_decorated = 23%nat /\ length (print_cue ex_cue) = 9%nat.
+Proof. split; [exact ex_cue_wf|]. split; [exact ex_decorated_is_decorated|]. split; reflexivity. Qed.
+
+(** Blank lines are a special case of both kinds of skipped lines; a line whose first
+    non-blank character is none of T, I, F (either case) is unrecognised everywhere. *)
+Theorem cue_blank_and_unrecognised_lines :
+  (forall l, blank_line l -> skipped_before_file l /\ skipped_in_track l)
+  /\ (forall l, unrecognised l -> skipped_before_file l /\ skipped_in_track l)
+  /\ (forall l c t, strip l = c :: t -> lower_c c <> 116 -> lower_c c <> 105 -> lower_c c <> 102 ->
+        unrecognised l).
+Proof.
+  split; [intros l H; split; [now apply blank_skipped_before_file|now apply blank_skipped_in_track]|].
+  split; [exact unrecognised_skipped|exact unrecognised_by_first_char].
+Qed.
+Print Assumptions cue_blank_and_unrecognised_lines.
+
+(** Why "unrecognised" is stated with the parser's own tests: an inserted line that one of the
+    patterns DOES match changes the meaning (a TITLE line after the INDEX lines replaces the
+    title; a FILE line before the FILE line leaves the sheet's own FILE line between FILE and
+    TRACK, which is rejected). *)
+Example cue_recognised_insertions_change_meaning :
+  (exists c', parse_cue_sheet (print_cue ex_cue ++ [title_line [120]]) = Ok c' /\ meaning c' <> meaning ex_cue)
+  /\ parse_cue_sheet (file_line [120] :: print_cue ex_cue) = Err BadCueSheet.
+Proof. exact ex_recognised_insertions_change_meaning. Qed.
+
+(** The former BOUNDED theorem (fixed three-track sheet; 4 casings x 3 paddings x every single
     insertion position x 4 blank-line kinds x 5 unrecognised-line kinds, enumerated inside
-    Coq).  The unbounded decoration theorem is not proved yet: named _partial. *)
+    Coq), kept for reference; it is subsumed by cue_parse_decorated. *)
 Theorem cue_decorated_small_scope_partial : decorated_ok = true.
 Proof. exact cue_decorated_small_scope. Qed.
 Print Assumptions cue_decorated_small_scope_partial.
